@@ -232,7 +232,7 @@ pub fn check_run(cx: &Cx, run: &RoleRun, am: &crate::cmp::AttrMap, entry: &(Stri
 
 thread_local! { static JUDGED: std::cell::Cell<usize> = Default::default(); }
 
-fn run_bounds(cx: &Cx, rep: &mut Report, rules: &[&str]) {
+pub fn run_bounds(cx: &Cx, rep: &mut Report, rules: &[&str]) {
     JUDGED.with(|c| c.set(0));
     let mut scratch = Report::new("x", "quick", &cx.verif);
     let am = attr_map(&cx.ix, &mut scratch);
